@@ -43,6 +43,8 @@ func collectC09() {
 	cBytes("AddrStakeContract", types.StakeContract.Bytes())
 	cBytes("AddrHtlcContract", types.HtlcContract.Bytes())
 	cI("ContractAddrByte", int64(types.ContractAddrByte))
+	cI("PillarTypeLegacy", int64(definition.LegacyPillarType))
+	cI("PillarTypeNormal", int64(definition.NormalPillarType))
 	cI("HashTypeSHA3", int64(definition.HashTypeSHA3))
 	cI("HashTypeSHA256", int64(definition.HashTypeSHA256))
 	cI("HashDigestSizeSHA3", int64(definition.HashTypeDigestSizes[definition.HashTypeSHA3]))
